@@ -408,6 +408,25 @@ func (e *Engine) chooseP(st *State, guardsIn []*smt.Term, payload []uint64, what
 			delete(rem, modelPick)
 		}
 		for len(rem) > 0 {
+			if len(feas) >= 6 {
+				// many alternatives are feasible: the OR queries no longer pay off, ask one by one
+				for i := range guards {
+					if !rem[i] {
+						continue
+					}
+					r, m := e.check(st, guards[i], true)
+					switch r {
+					case smt.Sat:
+						feas = append(feas, i)
+						models = append(models, m)
+					case smt.Unknown:
+						nUnknown++
+						feas = append(feas, i)
+						models = append(models, nil)
+					}
+				}
+				break
+			}
 			or := e.C.False
 			for i := range guards {
 				if rem[i] {
